@@ -71,12 +71,14 @@ class Sight:
         # adjust reticle scale relative to target distance and magnification
         def get_sfp_step(click_size: Angular):
             # Don't need distances conversion cause of it's destroying there
-            return click_size.units(
-                click_size.unit_value
+            # The angle itself is scaled, not the number shown in the click's display unit: that unit follows
+            # PreferredUnits.adjustment, and for inch/100yd and cm/100m scaling the number would scale the tangent
+            return Angular.Radian(
+                click_size.raw_value
                 * self.scale_factor.raw_value
                 / _td.raw_value
                 * magnification
-            )
+            ) << click_size.units
 
         _td = PreferredUnits.distance(target_distance)
         _h_step = get_sfp_step(self.h_click_size)
